@@ -486,7 +486,11 @@ static int cmdReplay(const std::string &casesPath, const std::string &tracePath)
     };
     for (const json &cs : vt::readNdjson(casesPath))
     {
-        ++cases;
+        const long ci = cases++;
+        auto emit = [&](json rec) {
+            rec["ci"] = ci;       // which model case this record belongs to (for the replay artefact)
+            trace.emit(rec);
+        };
         const std::string kname = cs["kind"];
         const char kind = kindOf(kname);
         const int T = cs["T"], TDen = (int)cs["it"].size() - 1;
@@ -507,7 +511,7 @@ static int cmdReplay(const std::string &casesPath, const std::string &tracePath)
                 ok = w.env.css->discreteGeodesic(from, to, ip, &g);
                 w.log.on = false;
                 facts = geoFacts(g, to, b.n, w.delta, w.lambda, [&](const double *x) { return w.sat(x); });
-                trace.emit(geoRecord(kname.c_str(), mf, ip, ok, facts, w.sat(vals(from)), w.sat(vals(to)), w.delta,
+                emit(geoRecord(kname.c_str(), mf, ip, ok, facts, w.sat(vals(from)), w.sat(vals(to)), w.delta,
                                      w.lambda));
                 ++events;
                 // drift against the model: return value, states, environment queries
@@ -572,7 +576,7 @@ static int cmdReplay(const std::string &casesPath, const std::string &tracePath)
                     w.env.css->freeState(from);
                     w.env.css->freeState(to);
                 }
-                trace.emit(json{{"e", "Interp"}, {"sp", kname}, {"mf", mf}, {"fromSat", fromSat ? 1 : 0},
+                emit(json{{"e", "Interp"}, {"sp", kname}, {"mf", mf}, {"fromSat", fromSat ? 1 : 0},
                                 {"toSat", toSat ? 1 : 0}, {"sat", sat}});
                 ++events;
             }
@@ -611,9 +615,9 @@ static int cmdReplay(const std::string &casesPath, const std::string &tracePath)
                     w.env.css->freeState(to);
                 }
                 derived += 2;
-                trace.emit(json{{"e", "Motion"}, {"sp", kname}, {"mf", mf}, {"cm", cm1 ? 1 : 0}, {"form", 1},
+                emit(json{{"e", "Motion"}, {"sp", kname}, {"mf", mf}, {"cm", cm1 ? 1 : 0}, {"form", 1},
                                 {"geoOk", ok ? 1 : 0}, {"toSat", toSat ? 1 : 0}});
-                trace.emit(json{{"e", "Motion"}, {"sp", kname}, {"mf", mf}, {"cm", cm2 ? 1 : 0}, {"form", 2},
+                emit(json{{"e", "Motion"}, {"sp", kname}, {"mf", mf}, {"cm", cm2 ? 1 : 0}, {"form", 2},
                                 {"geoOk", ok ? 1 : 0}, {"toSat", toSat ? 1 : 0}});
                 events += 2;
             }
